@@ -12,6 +12,7 @@ tick with an arrival or result, idle calls at least one poll interval apart, tic
 increasing at a constant offset.  Afterwards the recorded decisions are replayed by an
 in-process scheduler on the same workload: canonical event logs and statistics must match."""
 import json
+import re
 import threading
 import time
 from http.server import BaseHTTPRequestHandler, HTTPServer
@@ -39,6 +40,11 @@ N = {"quick": 7, "thorough": 700}
 REQUIRE = {"requests": 2000, "requests_with_results": 400, "requests_idle": 100, "pipelines_reported_complete": 150,
            "paired_runs_compared": 60, "assignments_decoded": 500, "suspensions_decoded": 10, "paired_serialisations": 200,
            "pool_snapshots_compared": 2000}
+
+def nid(x):
+    """Identifier comparison independent of the textual encoding of a UUID (dashed / hex / case)."""
+    return str(x).replace("-", "").lower()
+
 
 OP_KEYS = {"id", "state", "is_assignable_state", "parents_complete"}
 PIPE_KEYS = {"pipeline_id", "priority", "arrival_tick", "is_complete", "has_failures", "operators"}
@@ -213,11 +219,11 @@ class Recorder:
         uid = {}
         for p in h.pipelines:
             for i, op in enumerate(p.runtime_status().operator_states.keys()):
-                uid[str(op.id)] = (p.pipeline_id, i)
+                uid[nid(op.id)] = (p.pipeline_id, i)
         order = sorted(h.conts.values(), key=lambda c: (c.born, int(str(c.cid)[1:]) if str(c.cid)[1:].isdigit() else 0))
         ordinal = {c.cid: i for i, c in enumerate(order)}
         self.decisions[t] = ([(ordinal.get(x["container_id"]), x["pool_id"]) for x in sus],
-                             [([uid[o] for o in a["operator_ids"]], a["cpu"], a["ram_gb"], a["pool_id"], a["priority"]) for a in asg])
+                             [([uid[nid(o)] for o in a["operator_ids"]], a["cpu"], a["ram_gb"], a["pool_id"], a["priority"]) for a in asg])
         return {"suspensions": sus, "assignments": asg}
 
     # ---- per-request checks
@@ -246,8 +252,9 @@ class Recorder:
         else:
             for g, r in zip(got, truth):
                 self.keys_check(g, RESULT_KEYS, "result")
-                want = {"ops": [str(o.id) for o in r.ops], "cpu": r.cpu, "ram": r.ram, "priority": r.priority.name,
+                want = {"ops": [nid(o.id) for o in r.ops], "cpu": r.cpu, "ram": r.ram, "priority": r.priority.name,
                         "pool_id": r.pool_id, "container_id": r.container_id, "error": r.error}
+                g = dict(g, ops=[nid(x) for x in g.get("ops", [])])
                 if any(g.get(k) != v for k, v in want.items()):
                     self.problem("results-content", f"tick {t}: result {g} differs from the real one {want}")
         if got:
@@ -297,10 +304,10 @@ class Recorder:
             if len(pd["operators"]) != len(ops):
                 self.problem("operator-count", f"pipeline {p.pipeline_id}: {len(pd['operators'])} operators in payload, {len(ops)} real")
                 continue
-            by_id = {str(o.id): o for o in ops}
+            by_id = {nid(o.id): o for o in ops}
             for od in pd["operators"]:
                 self.keys_check(od, OP_KEYS, "operator")
-                o = by_id.get(od["id"])
+                o = by_id.get(nid(od["id"]))
                 if o is None:
                     self.problem("operator-id", f"operator id {od['id']} not in pipeline {p.pipeline_id}")
                     continue
@@ -331,8 +338,9 @@ class Recorder:
                     continue
                 for cd, c in zip(got_c, lst):
                     self.keys_check(cd, CONT_KEYS, "container")
-                    wc = {"operator_ids": [str(o.id) for o in c.operators], "cpu": c.assignment.cpu, "ram_gb": c.assignment.ram,
+                    wc = {"operator_ids": [nid(o.id) for o in c.operators], "cpu": c.assignment.cpu, "ram_gb": c.assignment.ram,
                           "current_memory_gb": c.get_current_memory_usage(), "priority": c.priority.name}
+                    cd = dict(cd, operator_ids=[nid(x) for x in cd.get("operator_ids", [])])
                     for k, v in wc.items():
                         if cd.get(k) != v:
                             self.problem("container-figures", f"container {c.container_id}: {k} = {cd.get(k)}, real {v}")
@@ -525,10 +533,18 @@ def run_paired_serialisation(case, mon):
             p, ops = sut.build_pipeline(sp)
             p.runtime_status().record_arrival(3)
             d = p.to_dict()
-            ids = {str(o.id): f"op{k}" for k, o in enumerate(ops)}
             txt = json.dumps(d, sort_keys=True)
-            for u, nm in ids.items():
-                txt = txt.replace(u, nm)
+            seen = {}
+
+            def rep(m):
+                key = nid(m.group(0))
+                if key not in seen:
+                    seen[key] = f"ID{len(seen)}"
+                return seen[key]
+
+            # identifiers are random per pipeline object: compare modulo renaming by first appearance
+            txt_ids = [nid(o.id) for o in ops]
+            txt = re.sub(r"[0-9a-fA-F]{8}-?[0-9a-fA-F]{4}-?[0-9a-fA-F]{4}-?[0-9a-fA-F]{4}-?[0-9a-fA-F]{12}", rep, txt)
             outs.append(txt)
         mon.count("paired_serialisations")
         if outs[0] != outs[1]:
